@@ -543,8 +543,43 @@ def register(an):
         if ty not in INT_RANGES:
             return NotImplemented
         op = {'add': 'Add', 'sub': 'Sub', 'mul': 'Mul'}[c['fn'].rsplit('_', 1)[1]]
+        if op in ('Add', 'Sub'):
+            a, b = an.as_int(args[0], st), an.as_int(args[1], st)
+            if a is not None and b is not None:
+                lo, hi = INT_RANGES[ty]
+                r = a + b if op == 'Add' else a - b
+                span = hi - lo + 1
+                for k_ in (0, -1, 1):
+                    rk = r + Lin.const(k_ * span)
+                    if st.prove_le0(rk - Lin.const(hi)) and st.prove_le0(Lin.const(lo) - rk):
+                        return ('int', rk)
         r = an.binop(op, args[0], args[1], ty, frame, st)
         return r
+
+    @model('core::bool::<impl bool>::then_some')
+    def m_then_some(an, t, args, frame, st, c):
+        b = args[0]
+        if b[0] == 'bool' and b[1][0] == 'const':
+            return mk_some(args[1]) if b[1][1] else mk_none()
+        if b[0] == 'bool' and b[1][0] in ('cmp', 'and', 'not'):
+            # decide the condition in the current state where possible
+            try:
+                s1 = st.copy()
+                s1.assume(b[1])
+                can_true = True
+            except Infeasible:
+                can_true = False
+            try:
+                s2 = st.copy()
+                s2.assume(cond_not(b[1]))
+                can_false = True
+            except Infeasible:
+                can_false = False
+            if can_true and not can_false:
+                return mk_some(args[1])
+            if can_false and not can_true:
+                return mk_none()
+        return mk_option(args[1], frozenset([0, 1]))
 
     @suffix('>::saturating_add', '>::saturating_sub')
     def m_saturating(an, t, args, frame, st, c):
